@@ -44,8 +44,11 @@ impl Gen {
                 let v: Value = serde_json::from_str(&line).ok()?;
                 Some((v["op"].as_str().unwrap_or("").to_string(), v["in"].clone()))
             }
-            "distcanon" => Some(("distparse".into(), json!({"bytes": bytes_json(&distinfos::canonical(rng))}))),
-            "distmessy" => Some(("distparse".into(), json!({"bytes": bytes_json(&distinfos::messy(rng))}))),
+            "distcanon" | "distmessy" => {
+                let t = if self.driver == "distcanon" { distinfos::canonical(rng) } else { distinfos::messy(rng) };
+                let ps: Vec<Value> = distinfos::probes(&t, rng).iter().map(|p| bytes_json(p)).collect();
+                Some(("distparse".into(), json!({"bytes": bytes_json(&t), "probes": ps})))
+            }
             "distbuild" => Some(("distbuild".into(), distinfos::build(rng))),
             "verify" => Some(("verify".into(), distinfos::verify(rng))),
             "scanindex" => {
@@ -62,8 +65,11 @@ impl Gen {
                     let name = match rng.below(5) {
                         _ if n > 10 => format!("pkg{:04}-{}.{}nb{}", k, rng.below(3), rng.below(10), rng.below(3)),
                         0 => rng.pick_str(&["nodash", "x-", "-1", "a--2", "é-1.0"]).to_string(),
-                        _ => format!("{}-{}", rng.pick_str(&["a", "py39-foo", "lib-b-c", "x"]), rng.pick_str(&["1", "1.0nb2", "2.3.4", "0alpha1nb10"])),
+                        // (a version part that does not start with a digit after an earlier "-<digit>": the split is at the last '-')
+                        _ => format!("{}-{}", rng.pick_str(&["a", "py39-foo", "lib-b-c", "x", "p5-2to3"]), rng.pick_str(&["1", "1.0nb2", "2.3.4", "0alpha1nb10", "1.0-rc1", "current", "2-x", "1.0-"])),
                     };
+                    // a literal of the code under test in the directory name (file names: no '/', no NUL)
+                    let name = { let d = crate::dict::dictify(rng, &name, 20).replace(['/', '\0'], ""); if d.is_empty() || d == "." || d == ".." || d.len() > 200 { name } else { d } };
                     if used.contains(&name) { continue; }
                     used.push(name.clone());
                     let dir = rng.chance(5, 6);
@@ -75,8 +81,9 @@ impl Gen {
                     let files = if dir { files } else { vec![] };
                     // zero-length '+' files exist all the same; a name that is not UTF-8 on disk
                     let empty: Vec<usize> = files.iter().copied().filter(|_| rng.chance(1, 6)).collect();
-                    // "big": the '+' files are longer than 8 KiB with a multi-byte character across the 8192nd byte
-                    es.push(json!({"name": codes(&name), "dir": tf(dir), "files": files, "empty": empty, "raw": tf(rng.chance(1, 12)), "big": tf(rng.chance(1, 25))}));
+                    // "big": the '+' files are longer than 8 KiB with a multi-byte character across the 8192nd
+                    // byte (T); +CONTENTS reaches across the 65 536th (K) or the 1 048 576th byte (M)
+                    es.push(json!({"name": codes(&name), "dir": tf(dir), "files": files, "empty": empty, "raw": tf(rng.chance(1, 12)), "big": if rng.chance(1, 25) { "T" } else if rng.chance(1, 100) { "K" } else if rng.chance(1, 250) { "M" } else { "F" }}));
                 }
                 let root = match rng.below(12) { 0 => "file", 1 => "missing", _ => "dir" };
                 Some(("pkgdb".into(), json!({"root": root, "entries": if root == "dir" { es } else { vec![] }})))
@@ -176,9 +183,10 @@ impl Gen {
             "patmatch" | "patdewey" | "patglob" | "patbrace" => {
                 let (p, names) = loop {
                     let (p, names) = match self.driver.as_str() {
-                        "patdewey" => patterns::dewey(rng),
-                        "patglob" => patterns::glob(rng),
-                        "patbrace" => patterns::brace(rng),
+                        "patdewey" => { let pn = patterns::dewey(rng); patterns::tail(rng, pn) }
+                        // (C05 is about glob and plain patterns)
+                        "patglob" => { let pn = if rng.chance(1, 6) { patterns::plain(rng) } else { patterns::glob(rng) }; patterns::tail(rng, pn) }
+                        "patbrace" => { let pn = patterns::brace(rng); patterns::tail(rng, pn) }
                         _ => patterns::any(rng),
                     };
                     // version comparison is specified for digit runs of at most 18 digits (C01)
